@@ -64,14 +64,39 @@ PROPS["C17"] = {
     "explanation": "adapter algebra proved for every payload; monitor compares arguments; enumeration of styles x payload kinds",
     "assumptions": ["payload identity is pointer identity for tokens; other payload kinds are compared by kind"],
 }
-for _p in ("C06", "C07", "C08", "C09", "C11"):
-    PROPS[_p] = {
-        "parts": [dict(ENGINE, timeout=600)],
-        "level_text": "placeholder",
-        "level_note": _T,
-        "explanation": "",
-        "assumptions": [],
-        "coqchk": True,
-    }
+_TB = _T + " The concurrent path is a hand-written transition system at the granularity of the Go code (wg.Add / send / receive / mutex-protected sections / each ctx.Err() read / each callback return are single steps); mutual exclusion of sync.Mutex, channel FIFO and WaitGroup semantics are assumed Go runtime semantics. The code is driven only along gated schedules (every exec call parked, one released at a time, quiescence recognised from goroutine states) where its whole trace, including the set of calls in flight at every quiescent point, must equal the model's; interleavings inside the library between two callback-free steps cannot be forced without hooks. Trace-level predicates spec_C06..C11 are applied to the implementation's trace and, as a guard, to the model's own trace of the same scenario (a predicate false of the model is reported as a defect of the predicate)."
+_BATCH = dict(ENGINE, timeout=600)
+PROPS["C06"] = {
+    "parts": [_BATCH],
+    "level_text": "Theorems over ALL schedules of the transition system of runBatchConcurrent on the worker pool (any number of items, workers, queue capacity, budget, all user code): C06_slots_positional - once the submitter is past pool.Wait every one of the n slots is written and slot i is determined by the callback events of item i alone (per-item monitor), so result i is the outcome of item i and of no other for every completion order; C06_post_after_all_settled - Wait is a barrier (nothing queued or running). Correspondence: gated runs over every release-priority permutation for n<=5 (quick) / n<=7 (thorough), c in 1..4, sequential n in 0..64, 6 prep payload shapes, with full-trace equality; spec_C06 (post once and last, items in order, equal length, each slot = outcome of that item's events, never-executed items carry an error) judges the implementation's trace.",
+    "level_note": _TB, "explanation": "invariants of the pool/batch transition system for all schedules + gated exhaustive completion orders",
+    "assumptions": ["items are pairwise distinct tokens in correspondence scenarios so that events can be attributed to items"],
+}
+PROPS["C07"] = {
+    "parts": [_BATCH],
+    "level_text": "Theorems over ALL schedules: C07_item_processing_independent - in every reachable state the events made for item i are a prefix of a budget-exact processing of item i (the per-item monitor, which reads item i's events only, never rejects), so no other item can prevent, repeat or alter them; C07_slot_is_item_outcome; C07_one_worker_per_item (exactly once); C07_item_budget_exact (min(k,N) attempts, fallback iff all N failed, for the item loop). Correspondence: every assignment of {ok, fail-ok, fail-fail}^3 x fallback {default, user ok, user err} x N<=2 x c in {0,2} under several completion orders, random batches up to 64 items / 16 workers, full-trace equality.",
+    "level_note": _TB, "explanation": "per-item monitor invariant for all schedules; exhaustive per-item script assignments",
+    "assumptions": ["batch nodes have an exec function (has_exec)"],
+}
+PROPS["C08"] = {
+    "parts": [_BATCH],
+    "level_text": "Theorems over ALL schedules: C08_upper - never more than `workers` exec calls (or tasks) in flight; C08_usable - in every reachable quiescent state (no step of the submitter or of a worker outside an exec call enabled) before the end, EVERY worker is inside an exec call or all n items have been handed out: c blocking executions do run simultaneously; C08_no_deadlock; workers = max 1 c. Correspondence: at every quiescent point of every gated run the set of exec calls in flight observed on the implementation equals the model's (both bounds exactly, no timing thresholds); c=0 runs must be strictly sequential in item order.",
+    "level_note": _TB, "explanation": "structural bound + enabledness analysis of quiescent states; in-flight sets compared at every quiescent point",
+    "assumptions": ["queue capacity > 0 (the code uses 2*workers)"],
+}
+PROPS["C09"] = {
+    "parts": [_BATCH],
+    "level_text": "Theorems over ALL schedules: C09_stop_skips - once the stop flag is up, an item whose task has not passed its stop-flag check is never executed (its events stay empty for every continuation of every schedule), so only tasks already received by the other workers can still run; C09_stop_flag_permanent; C09_no_fake_success - for every mode and schedule the slot of an item without events is an error slot. Correspondence: first failing item at every position for n<=8 (quick) / 16, c in 0..4, both modes, failing item released first / last / randomly; spec_C09 walks the implementation's trace (after the final failure only calls of items in flight at the last quiescent point may appear).",
+    "level_note": _TB + " A change that un-sets the stop flag again during the drain of the queue is visible only under schedules inside the library that gating cannot force (see DESIGN.md section 11).",
+    "explanation": "unstarted-items invariant for all continuations; stop position sweep",
+    "assumptions": [],
+}
+PROPS["C11"] = {
+    "parts": [_BATCH],
+    "level_text": "Theorems over ALL schedules (the environment's cancel step may occur anywhere): C11_no_new_work - once the context is cancelled no item gains an exec attempt except that an exec call already in flight may return (no new item, no new retry attempt, at most one committed call per worker); C11_cancellation_permanent; C11_terminates_no_deadlock; C11_slots - never-executed items carry an error slot, items cut short carry a context-class error. Correspondence: cancellation before the run and from inside the exec of every item index and attempt, n<=6 (quick) / 12, c in 0..4, both modes, w in {0,1ms}; spec_C11 walks the implementation's trace (after the cancelling callback only calls that were in flight may still appear, exactly one post, error slots).",
+    "level_note": _TB,
+    "explanation": "allowance invariant for all continuations; cancellation point sweep",
+    "assumptions": ["cancellation is issued from inside callbacks in correspondence scenarios; the theorem also covers an asynchronous cancel step"],
+}
 
 NOT_APPLICABLE = {}
